@@ -10,6 +10,13 @@ const P_RULES: [&str; 27] = ["% > [+stress]", "% > [-stress]", "% > [+sec.stress
     "V:[+long] > [+sec.stress]", "[] > [tone:1234]", "$ > *", "* > $", "$C > &", "C$ > &", "$V > &", "V$ > &", "$a > &", "[]$ > &",
     // alpha-valued stress setters (still "output only sets stress"): the alpha is bound by the input
     "%:[αstress] > [αsec.stress]", "V:[αstress] > [-αsec.stress]", "[αstress] > [αsec.stress]", "%:[αsec.stress] > [αstress]", "V:[αlong] > [αstress]", "V:[αlong] > [-αsec.stress]", "C:[αsec.stress] > [-αstress, tone:5]"];
+/// (variables 8 and 9, so that the environment items `C=1`, `%=1`, `1` of the alphabet stay independent of them)
+/// boundary changes written as substitutions: the output restates the matched segments (through variables, or as the same literal) and
+/// only adds, drops or moves a `$`. (flag: the output holds a literal, which by the manual shortens a long segment it replaces — such rules
+/// are claimed on words without long segments only)
+const B_RULES: [(&str, bool); 22] = [("V=8 $ > 8", false), ("C=8 $ > 8", false), ("[]=8 $ > 8", false), ("$ V=8 > 8", false), ("$ C=8 > 8", false), ("$ []=8 > 8", false),
+    ("V=8 $ C=9 > 8 9", false), ("C=8 $ V=9 > 8 9", false), ("[]=8 $ []=9 > 8 $ 9", false), ("V=8 > 8 $", false), ("C=8 > $ 8", false), ("V=8 C=9 > 8 $ 9", false), ("C=8 $ V=9 > $ 8 9", false), ("V=8 $ C=9 > 8 9 $", false),
+    ("a $ > a", true), ("t $ > t", true), ("$ a > a", true), ("$ t > t", true), ("a > a $", true), ("t > $ t", true), ("a $ t > a t", true), ("a t > a $ t", true)];
 /// the same with the alpha bound by the context
 const P_CTX_RULES: [&str; 6] = ["V > [αsec.stress] / _ C:[αstress]", "V > [-αstress] / [αsec.stress] _", "% > [αstress] / _ %:[αstress]", "V > [Asec.stress] / _C:[Astress]", "% > [-αsec.stress] / %:[αstress] _", "V > [αstress, βsec.stress] / C:[βstress] _ C:[αlong]"];
 
@@ -35,11 +42,12 @@ fn words(max_len: usize) -> Vec<CW> {
     let inv: Vec<SegBits> = ["p", "t", "a", "i"].iter().map(|t| seg(t)).collect();
     let mut out = vec![];
     for (k, w) in word_space(&inv, max_len).into_iter().enumerate() {
-        for d in 0..2 {
+        // decorations 2 and 3 vary one tier only (neighbours that differ in tone alone / in stress alone), 4 is the bare word
+        for d in 0..5 {
             let mut x = w.clone();
             for (i, sy) in x.iter_mut().enumerate() {
-                sy.stress = if d == 0 { ((k + i) % 3) as u8 } else { ((k / 3 + 2 * i) % 3) as u8 };
-                sy.tone = if d == 0 { [0, 5, 51, 1234][(k + i) % 4] } else { [5, 0, 0, 51][(k / 2 + i) % 4] };
+                sy.stress = match d { 0 => ((k + i) % 3) as u8, 1 => ((k / 3 + 2 * i) % 3) as u8, 3 => ((k + 2 * i) % 3) as u8, _ => 0 };
+                sy.tone = match d { 0 => [0, 5, 51, 1234][(k + i) % 4], 1 => [5, 0, 0, 51][(k / 2 + i) % 4], 2 => [0, 5, 51, 1234][(k + i) % 4], 3 => 5, _ => 0 };
             }
             out.push(x);
         }
@@ -62,6 +70,7 @@ fn flat(w: &CW) -> Vec<SegBits> { w.iter().flat_map(|s| s.segs.iter().copied()).
 fn eval(text: &str, class: char, ipa_out: bool, ws: &[CW], a: &mut Acc) {
     let compiled = match guarded(1_000_000, || av::compile(&[group(&[text])])) { Out::Ok(Ok(c)) => c, Out::Ok(Err(_)) => { a.rejected += 1; return; } _ => { a.crashed += 1; return; } };
     for w in ws {
+        if class == 'P' && ipa_out && has_adjacent_equal(w) { continue; }
         a.evals += 1;
         let got = guarded(budget_for(14, text.chars().count()), || av::apply_group(&compiled, 0, word_of(w)).map(|x| cw_of(&x)));
         let g = match got { Out::Ok(Ok(g)) => g, Out::Ok(Err(_)) => { a.errs += 1; continue; } _ => { a.crashed += 1; break; } };
@@ -81,7 +90,7 @@ fn eval(text: &str, class: char, ipa_out: bool, ws: &[CW], a: &mut Acc) {
 pub fn run() -> i32 {
     let mut r = Report::new("C14");
     let thorough = r.thorough();
-    r.rule = "class S (segment-only): input = 1 or 2 segment-matching items over {a,t,C,V,[+cons],[],{p,a},V:[+long],a:[-long]}, output = the same number of items over {i,t,[+voice],[-hi],[-place],[+round]}; class P (prosody-only): stress / secondary stress / tone setters on % and on segments (binary, and alpha-valued with the alpha bound by the input or by the context), `$ > *`, `* > $`, `$X > &`, `X$ > &`; each with no environment and with every context and every exception of <= 1 item (thorough: one item on each side, `#`) over the 22-item environment alphabet (optionals, ellipsis, %, structures, sets, variables); x decorated words of W(I4,L) incl. long segments, plus ten words with runs of four to six copies. Oracle when Ok: S keeps syllable count, stress and tone vectors (and segments per syllable when no long segment is involved); P keeps the flattened segment sequence. Non-trivial = Ok and the word changed.".into();
+    r.rule = "class S (segment-only): input = 1 or 2 segment-matching items over {a,t,C,V,[+cons],[],{p,a},V:[+long],a:[-long]}, output = the same number of items over {i,t,[+voice],[-hi],[-place],[+round]}; class P (prosody-only): stress / secondary stress / tone setters on % and on segments (binary, and alpha-valued with the alpha bound by the input or by the context), `$ > *`, `* > $`, `$X > &`, `X$ > &`, and 22 boundary changes written as substitutions whose output restates the matched segments and adds / drops / moves a `$` (`V=1 $ > 1`, `C=1 > $ 1`, `a $ t > a t`, ...; the literal forms on words without long segments); each with no environment and with every context and every exception of <= 1 item (thorough: one item on each side, `#`) over the 22-item environment alphabet (optionals, ellipsis, %, structures, sets, variables); x decorated words of W(I4,L) incl. long segments, plus ten words with runs of four to six copies. Oracle when Ok: S keeps syllable count, stress and tone vectors (and segments per syllable when no long segment is involved); P keeps the flattened segment sequence. Non-trivial = Ok and the word changed.".into();
     let ws = words(if thorough { 4 } else { 3 });
     let e1 = env_texts(if thorough { 2 } else { 1 });
     let e_small: Vec<String> = e1.iter().take(1).cloned().chain(e1.iter().skip(1).step_by(if thorough { 7 } else { 9 }).cloned()).collect();
@@ -90,9 +99,11 @@ pub fn run() -> i32 {
     for i in S_IN { for j in S_IN { for (oi, o) in S_OUT.iter().enumerate() { for (pi, p) in S_OUT.iter().enumerate() { for e in &e_small { jobs.push((format!("{} {} > {} {}{}", i, j, o, p, e), 'S', oi < 2 || pi < 2)); } } } } }
     for p in P_RULES { for e in &e1 { if p == "* > $" && !e.contains('/') { continue; } jobs.push((format!("{}{}", p, e), 'P', false)); } }
     for p in P_CTX_RULES { jobs.push((p.to_string(), 'P', false)); }
+    // ipa flag of a P job: the output holds a literal segment, words with long segments are not claimed
+    for (p, lit) in B_RULES { for e in &e1 { jobs.push((format!("{}{}", p, e), 'P', lit)); } }
     let mut ts = Acc::default(); let mut tp = Acc::default();
     let mut both: Vec<(Acc, Acc)> = vec![];
-    par_fold(jobs.len(), 16, || (Acc::default(), Acc::default()), |i, a: &mut (Acc, Acc)| { let (t, c, ipa) = &jobs[i]; if *c == 'S' { eval(t, 'S', *ipa, &ws, &mut a.0) } else { eval(t, 'P', false, &ws, &mut a.1) } }, |a| both.push(a));
+    par_fold(jobs.len(), 16, || (Acc::default(), Acc::default()), |i, a: &mut (Acc, Acc)| { let (t, c, ipa) = &jobs[i]; if *c == 'S' { eval(t, 'S', *ipa, &ws, &mut a.0) } else { eval(t, 'P', *ipa, &ws, &mut a.1) } }, |a| both.push(a));
     for (s, p) in both { ts.merge(s); tp.merge(p); }
     for (name, t) in [("S segment-only", &ts), ("P prosody-only", &tp)] {
         r.boxes.push(json!({"box": name, "applications": t.evals, "ok_changed": t.ok_changed, "ok_unchanged": t.ok_same, "runtime_errors": t.errs, "rules_rejected": t.rejected, "crashed (C02)": t.crashed}));
